@@ -247,6 +247,8 @@ impl Unifiable {
                 }
 
                 new_ss[id] = Some(Rc::new(other.clone()));
+                #[cfg(feature = "verif-hooks")]
+                crate::verif_hooks::verif_on_bind(&new_ss, id);
                 return Some(Rc::new(new_ss));
 
             },
